@@ -13,8 +13,9 @@ import sys
 import common
 import e2e
 import impl
+import preccorr
 
-LEAN_TARGETS = ["CM.Props.Lift", "CM.Props.C08"]
+LEAN_TARGETS = ["CM.Props.Lift", "CM.Props.C08", "CM.Props.Prec"]
 THEOREMS = [
     "CM.Pipeline.C08_run_equiv",
     "CM.Pipeline.run_preserves",
@@ -24,6 +25,12 @@ THEOREMS = [
     "CM.BoolRw.C08_invert_partial_order_fails",
     "CM.BoolRw.C08_combine_or_same_receiver",
     "CM.BoolRw.C08_combine_regroup_fails",
+    "CM.Prec.C08_combine_preserves_wp",
+    "CM.Prec.C08_invert_preserves_wp",
+    "CM.Prec.C08_walrus_preserves_wp",
+    "CM.Prec.C08_combine_old_drops_parentheses",
+    "CM.Prec.C08_invert_old_drops_parentheses",
+    "CM.Prec.C08_walrus_old_loses_precedence",
 ]
 RULE = (
     "generated closed deterministic programs per refactoring family (operand kinds, and/or/not nesting and parenthesisation, tuple vs "
@@ -245,6 +252,113 @@ FAMILIES = {
     "pixee:python/remove-module-global": fam_misc,
     "pixee:python/sql-parameterization": fam_sql,
 }
+
+
+def depth(e):
+    return 1 + max([depth(e[k]) for _, k in preccorr.children(e)] or [0])
+
+
+def witness(ctx, cid, src, out, in_def=False):
+    """a disagreement between the model's tree and the codemod's output: look for operand values under which the two files
+    behave differently (that is the property failing on the real code)"""
+    if out is None or ctx.prec_witness_budget <= 0:
+        return
+    ctx.prec_witness_budget -= 1
+    rng = random.Random(src)
+    body = lambda code: code.replace("    pass\n", "    print('T')\n" + ("    else:\n        print('F')\n" if in_def else "else:\n    print('F')\n"))
+    root = common.tmpdir("c08w")
+    try:
+        for _ in range(8):
+            vals = {n: rng.choice(["0", "1", "2", "True", "False", "''", "'a'", "[]", "[1]"]) for n in ("a", "b", "c", "flag", "xy", "d0")}
+            pre = (f"class _X: y = {vals['xy']}\nx = _X()\nd = [{vals['d0']}]\na = {vals['a']}\nb = {vals['b']}\nc = {vals['c']}\nflag = {vals['flag']}\n"
+                   f"s = {rng.choice(['\'abc\'', '\'bcd\'', '\'xyz\''])}\nt = {rng.choice(['\'abc\'', '\'cab\''])}\n")
+            post = "try:\n    f(a, b, c, flag, x, d, s, t)\nexcept Exception as e:\n    print('EXC', type(e).__name__)\n" if in_def else ""
+            wrap = (lambda code: pre + body(code) + post) if in_def else (lambda code: pre + "try:\n" + "".join("    " + ln for ln in body(code).splitlines(True)) + "except Exception as e:\n    print('EXC', type(e).__name__)\n")
+            o1, o2 = execute(wrap(src), root), execute(wrap(out), root)
+            if o1 != o2:
+                ctx.fail({"kind": "behaviour-changed", "codemod": cid, "shape": "parenthesised"},
+                         f"{cid}: {src!r} => {out!r} behaves differently ({o1[-60:]!r} -> {o2[-60:]!r}) with {vals}",
+                         {"codemod": cid, "before": wrap(src), "after": wrap(out), "before_out": o1, "after_out": o2})
+                return
+    finally:
+        shutil.rmtree(root, ignore_errors=True)
+
+
+def corr(ctx):
+    """CM.Prec against libcst (what `WP` means) and against the three real codemods (what they build)"""
+    rng = ctx.rng
+    ctx.prec_witness_budget = 12
+    # 1. WP 0 e  <=>  libcst prints e and parses it back to e
+    trees = list(preccorr.small_trees())
+    for _ in range(ctx.pick(400, 4000)):
+        t = preccorr.gen(rng, rng.randint(1, 4))
+        trees.append(t)
+        w = preccorr.repair(t)
+        trees.append(w)
+        b = preccorr.break_one(rng, w)
+        if b is not None:
+            trees.append(b)
+    answers = common.lean_ask([{"op": "prec", "e": t} for t in trees])
+    for t, a in zip(trees, answers):
+        if "err" in a:
+            ctx.broke("prec driver op", str(a)); break
+        back, code = preccorr.reparse(t)
+        ctx.corr_case("prec_wp", {"tree": t}, {"roundtrip": back == t, "code": code}, {"roundtrip": a["wp"][0], "code": a["render"]}, depth(t) >= 2,
+                      "wp:" + ("yes" if a["wp"][0] else "no") + ":" + preccorr.kind(t))
+    # 2. the rewrites, through the CLI, on well-parenthesised trees
+    def wp_trees(n, **kw):
+        out = []
+        for _ in range(n):
+            out.append(preccorr.repair(preccorr.gen(rng, rng.randint(2, 4), **kw)))
+            if rng.random() < 0.5:   # extra, unneeded parentheses stay where they are
+                out[-1] = preccorr.repair(preccorr.gen(rng, rng.randint(2, 3), **kw) | {"p": True})
+        return out
+    n = ctx.pick(150, 1500)
+    for cid, field, trees2 in [
+        ("pixee:python/combine-startswith-endswith", "combine", wp_trees(n // 3, calls=0.75, kinds=["or", "or", "or", "and", "and", "lnot", "cmp", "ifx", "arith", "neg"]) + [preccorr.gen_combine(rng) for _ in range(n)]),
+        ("pixee:python/invert-boolean-check", "invert", wp_trees(n // 3, calls=0.1, kinds=["lnot", "lnot", "lnot", "cmp", "cmp", "cmp", "and", "or", "arith", "neg", "ifx", "chain", "named"]) + [preccorr.gen_invert(rng) for _ in range(n)]),
+    ]:
+        ans = common.lean_ask([{"op": "prec", "e": t} for t in trees2])
+        srcs = [f"if {a['render']}:\n    pass\n" for a in ans]
+        outs = preccorr.run_codemod(cid, srcs)
+        for t, a, src, out in zip(trees2, ans, srcs, outs):
+            got = preccorr.test_of(out)
+            want = "failed" if (field == "invert" and a["invert_raises"]) else a[field]
+            changed = a[field] != t
+            if not ctx.corr_case("prec_" + field, {"source": src}, got, want, changed, field + (":changed" if changed else ":same") + (":raises" if want == "failed" else "")):
+                witness(ctx, cid, src, out)
+            # the property on the real output: it parses to the tree the model says, and that tree is well parenthesised
+            ctx.search_case("rewrite-parse:" + cid, {"source": src}, changed)
+            if got == "unparsable":
+                ctx.fail({"kind": "rewritten-expression-does-not-parse", "codemod": cid}, f"{cid}: {src!r} => {out!r} does not parse", {"codemod": cid, "before": src, "after": out})
+    # 3. use-walrus-if: value x test shape x single / multiple reads
+    reqs, srcs = [], []
+    for _ in range(ctx.pick(120, 1200)):
+        value = preccorr.repair(preccorr.gen(rng, rng.randint(0, 3), calls=0.2, kinds=["or", "and", "lnot", "cmp", "arith", "neg", "ifx", "ifx", "named"]), 1)
+        shape = rng.choice(["name", "not", "not", "cmp", "cmp"])
+        test = {"k": shape}
+        if shape != "name": test["p"] = rng.random() < 0.2
+        if shape == "cmp":
+            test["op"] = rng.choice(["is_", "isNot", "eq", "ne"])
+            test["rhs"] = preccorr.repair(preccorr.gen(rng, rng.randint(0, 2), calls=0.2, kinds=["arith", "neg", "lnot", "or"]), 6)
+        reqs.append({"op": "prec_walrus", "name": "val", "value": value, "single": rng.random() < 0.6, "test": test})
+    vals = common.lean_ask([{"op": "prec", "e": r["value"]} for r in reqs])
+    rhss = common.lean_ask([{"op": "prec", "e": r["test"].get("rhs", {"k": "atom", "n": "a", "p": False})} for r in reqs])
+    for r, v, rh in zip(reqs, vals, rhss):
+        t = r["test"]
+        tcode = {"name": "val", "not": "not val", "cmp": f"val {preccorr.COP_TEXT[t.get('op', 'eq')]} {rh['render']}"}[t["k"]]
+        if t.get("p"): tcode = f"({tcode})"
+        srcs.append(f"def f(a, b, c, flag, x, d, s, t):\n    val = {v['render']}\n    if {tcode}:\n        pass\n" + ("" if r["single"] else "    return val\n"))
+    ans = common.lean_ask(reqs)
+    outs = preccorr.run_codemod("pixee:python/use-walrus-if", srcs)
+    for r, a, src, out in zip(reqs, ans, srcs, outs):
+        got = preccorr.test_of(out, in_def=True)
+        if not ctx.corr_case("prec_walrus", {"source": src}, got, a["out"], True, f"walrus:{r['test']['k']}:{'single' if r['single'] else 'multi'}"):
+            witness(ctx, "pixee:python/use-walrus-if", src, out, in_def=True)
+        ctx.search_case("rewrite-parse:pixee:python/use-walrus-if", {"source": src}, True)
+        if got == "unparsable":
+            ctx.fail({"kind": "rewritten-expression-does-not-parse", "codemod": "pixee:python/use-walrus-if"}, f"use-walrus-if: {src!r} => {out!r} does not parse",
+                     {"codemod": "pixee:python/use-walrus-if", "before": src, "after": out})
 
 
 def execute(code: str, cwd) -> str:
